@@ -18,6 +18,9 @@ def make_sim(name: str) -> Simulator:
     if name == "sima":
         from sims.sima import SimA
         return SimA()
+    if name == "simt":
+        from sims.simt import SimT
+        return SimT()
     raise HarnessError(f"unknown simulator {name}")
 
 
@@ -74,6 +77,10 @@ for _p, _profiles, _lvl in [("C28", ["runs"], "fault_enumeration"), ("C29", ["ru
                             ("C38", ["ids"], "exploration")]:
     _add(CheckSpec(property=_p, sim="sima", profiles=_profiles, runs_quick=1500, runs_thorough=200000, level=_lvl,
                    rule="(filled)", assumptions=["(filled)"], wall_quick=50, wall_thorough=1500, run_timeout=60))
+
+
+_add(CheckSpec(property="C40", sim="simt", profiles=["mixed", "mixed", "locked"], runs_quick=1200, runs_thorough=120000,
+               level="exploration", rule="(filled)", assumptions=["(filled)"], wall_quick=50, wall_thorough=1500, run_timeout=90))
 
 
 def get_spec(prop: str) -> CheckSpec:
